@@ -16,7 +16,11 @@ pub mod c12;
 pub mod c13;
 pub mod c17;
 pub mod c19;
+pub mod c21;
+pub mod c22;
+pub mod c23;
 pub mod c28;
+pub mod driver_common;
 pub mod suite;
 
 pub type RunFn = fn(Ctx, Option<PathBuf>) -> i32;
@@ -34,13 +38,19 @@ pub const REGISTRY: &[(&str, RunFn)] = &[
     ("C13", c13::run),
     ("C17", c17::run),
     ("C19", c19::run),
+    ("C21", c21::run),
+    ("C22", c22::run),
+    ("C23", c23::run),
     ("C28", c28::run),
 ];
 
 /// Hidden subcommands (`lv __xyz ...`) used by checks that need a fresh
 /// process linking the lalrpop library.
-pub fn hidden_subcommand(_name: &str, _args: &[String]) -> Option<i32> {
-    None
+pub fn hidden_subcommand(name: &str, args: &[String]) -> Option<i32> {
+    match name {
+        "__api" => Some(driver_common::api_main(args)),
+        _ => None,
+    }
 }
 
 /// Shared boilerplate: load a replay file or fail with exit 2.
